@@ -54,12 +54,14 @@ def by_product_jobs(tier):
 
 # --- the excerpt grid -----------------------------------------------------------------
 GRID_GRAMMARS = {
-    'E': 'start = [/[xy\\n]*/, "!"]',      # ParseError at the offending character
-    'P': 'start = /[xy\\n]*/',            # PartialParseError at the offending character
+    'E': 'start = [/[xy\\n\ufeff]*/, "!"]',      # ParseError at the offending character
+    'P': 'start = /[xy\\n\ufeff]*/',            # PartialParseError at the offending character
     'BE': 'start = [b/[xy\\n]*/, b"!"]',
     'BP': 'start = b/[xy\\n]*/',
 }
-PRE = ['', '\n', 'xx\n', 'x' * 100 + '\n', 'x\n\n']
+# (a byte-order mark at the start of the text is an ordinary character for sourcer)
+PRE = ['', '\n', 'xx\n', 'x' * 100 + '\n', 'x\n\n', '\ufeff', '\ufeffxx\n']
+OFFENDING = ['?', '\r']          # '\r' is not a line break for sourcer: also as CR of a CRLF line end
 SUF = ['', '\n', '\nyyy', '\n' + 'y' * 100]
 
 
@@ -71,7 +73,7 @@ def grid_init():
     return mods
 
 
-def check_text(g, text, idx, is_bytes):
+def check_text(g, text, idx, is_bytes, off='?'):
     try:
         g.parse(text)
         return 'no-error'
@@ -106,7 +108,7 @@ def check_text(g, text, idx, is_bytes):
     if caret.strip() != '^' or set(caret[:-1]) - {' '}:
         return 'excerpt-spills-over-line-break'
     k = len(caret) - 1
-    if k >= len(ex) or ex[k] != '?':
+    if k >= len(ex) or ex[k] != off:
         return 'caret-not-under-character'
     return None
 
@@ -123,14 +125,17 @@ def grid_job(L, mods):
     for c in range(0, L):
         for pre in PRE:
             for suf in SUF:
-                text = pre + 'x' * c + '?' + 'y' * (L - c - 1) + suf
+              for off in OFFENDING:
+                if off != '?' and (c not in (0, L - 1, L // 2) or suf == ''):
+                    continue            # the CR variant: at the start, in the middle and as CR of a CRLF line end
+                text = pre + 'x' * c + off + 'y' * (L - c - 1) + suf
                 idx = len(pre) + c
                 for gk in ('E', 'P', 'BE', 'BP'):
                     is_b = gk.startswith('B')
-                    if is_b and (pre not in ('', 'xx\n') or suf not in ('', '\nyyy')):
+                    if is_b and (pre not in ('', 'xx\n') or suf not in ('', '\nyyy') or off != '?'):
                         continue
                     t = text.encode() if is_b else text
-                    why = check_text(mods[gk], t, idx, is_b)
+                    why = check_text(mods[gk], t, idx, is_b, off)
                     res['ctr']['cases'] += 1
                     res['ctr']['states'] += 1
                     res['ctr']['transitions'] += 1
